@@ -73,6 +73,15 @@ def ref_cards(vendor, sizes, extra, row_order=None):
 
 def prep(vendor, sizes, bound, n_cvrs, index_kind="range", used_before=False):
     m = make_manifest(vendor, sizes, index_kind)
+    if used_before == "withdrawn":
+        # the manifest is what is left of an already prepared one after its first batch (2 cards) was withdrawn: it still
+        # carries that manifest's cumulative-count column (Dominion only: its prepared manifests keep numeric counts)
+        big = make_manifest(vendor, (2,) + tuple(sizes), index_kind)
+        with warnings.catch_warnings():
+            warnings.simplefilter("ignore")
+            prepared, _, _ = Dominion.prep_manifest(big, 2 + sum(sizes), 0)
+        m = prepared.iloc[1:].reset_index(drop=True)
+        used_before = False
     with warnings.catch_warnings():
         warnings.simplefilter("ignore")
         if used_before == "exact":  # the same raw DataFrame object was prepared before, with the bound equal to its size
@@ -264,9 +273,11 @@ def run_shard(sh, rec):
                             rec.violate(key.replace("C08|", "C17|"), what, {"kind": "cvrs", "vendor": vendor, "layout": list(layout), "sample": list(sample)})
         return
     _, vendor, sizes, tier = sh
-    for extra, index_kind in ((0, "range"), (1, "range"), (2, "range"), (0, "reversed"), (0, "shifted"), (1, "reversed"), (0, "used"), (2, "used"), (1, "used-exact"), (2, "used-exact")):
+    for extra, index_kind in ((0, "range"), (1, "range"), (2, "range"), (0, "reversed"), (0, "shifted"), (1, "reversed"), (0, "used"), (2, "used"), (1, "used-exact"), (2, "used-exact"), (0, "withdrawn"), (2, "withdrawn")):
         rec.state()
-        used = {"used": True, "used-exact": "exact"}.get(index_kind, False)
+        if index_kind == "withdrawn" and vendor != "dominion":
+            continue
+        used = {"used": True, "used-exact": "exact", "withdrawn": "withdrawn"}.get(index_kind, False)
         v, man = judge_prep(vendor, sizes, extra, "range" if used else index_kind, used)
         if used:
             rec.vac("raw_manifest_object_prepared_twice")
@@ -286,8 +297,8 @@ def run_shard(sh, rec):
             rec.outcome((vendor, sizes, extra))
         for key, what in v:
             rec.violate(key, what, {"kind": "prep", "vendor": vendor, "sizes": list(sizes), "extra": extra, "index_kind": index_kind})
-        if v or man is None:
-            continue
+        if v or man is None or index_kind == "withdrawn":
+            continue  # (a withdrawn-batch manifest keeps the other batches' names: only the accounting is judged)
         ref = ref_cards(vendor, sizes, extra)
         nums = sorted(ref)
         samples = [(s,) for s in nums] + list(itertools.permutations(nums, 2))
@@ -342,7 +353,7 @@ def run_case(case):
         return [(k.replace("C08|", "C17|"), w) for k, w in c08.judge_vendor(case["vendor"], tuple(case["layout"]), case["sample"])]
     sizes = tuple(case["sizes"])
     ik = case.get("index_kind", "range")
-    v, man = judge_prep(case["vendor"], sizes, case["extra"], "range" if ik.startswith("used") else ik, {"used": True, "used-exact": "exact"}.get(ik, False))
+    v, man = judge_prep(case["vendor"], sizes, case["extra"], "range" if (ik.startswith("used") or ik == "withdrawn") else ik, {"used": True, "used-exact": "exact", "withdrawn": "withdrawn"}.get(ik, False))
     if case["kind"] == "prep" or man is None:
         return v
     lv = judge_lookup(case["vendor"], sizes, case["extra"], man, tuple(case["sample"]), bool(case.get("derived")))
